@@ -92,12 +92,16 @@ void RSModel::ResetAliases() {
 }
 
 bool RSModel::Erase(const EntityUID target) {
+  if (!core.Contains(target)) {
+    return false;
+  }
+  const auto dependants = core.RSLang().Graph().ExpandOutputs({ target });
   if (!core.Erase(target)) {
     return false;
   } else {
     dataFacet->Erase(target);
     calulatorFacet->Erase(target);
-    ResetDependants(target);
+    ResetItems(dependants, target);
     NotifyModification();
     return true;
   }
@@ -113,6 +117,7 @@ bool RSModel::SetExpressionFor(const EntityUID target, const std::string& expres
   } else {
     dataFacet->ResetFor(target);
     calulatorFacet->ResetFor(target);
+    ResetDependants(target);
     NotifyModification();
     return true;
   }
@@ -135,9 +140,15 @@ bool RSModel::SetConventionFor(const EntityUID target, const std::string& conven
 }
 
 void RSModel::ResetDependants(const EntityUID target) {
-  for (const auto dependant : core.RSLang().Graph().ExpandOutputs({ target })) {
+  ResetItems(core.RSLang().Graph().ExpandOutputs({ target }), target);
+}
+
+void RSModel::ResetItems(const SetOfEntities& items, const EntityUID target) {
+  for (const auto dependant : items) {
+    if (dependant == target) {
+      continue;
+    }
     if (const auto type = core.GetRS(dependant).type;
-        dependant != target &&
         !IsBaseSet(type)) {
       if (type == CstType::structured) {
         Values().PruneStructure(dependant);
